@@ -592,6 +592,11 @@ def exec_template(M, env, cond_script=None, max_steps=200, seq=None):
     return regs['A'], executed
 
 
+def clone_for_meaning(X, mk):
+    """A second, untouched instance of the condition for the reference meaning (passes may rewrite the first in place)."""
+    return mk(X)
+
+
 def rule_templates(rep, idx):
     rep.rule('R11', 'operator templates: for every binary operator (after OptimiseExpr) and ~, and every operand-kind pair, executing the '
              'generated instruction template -- sub-expression code being an opaque step that delivers the X value of its sub-expression in '
@@ -707,6 +712,43 @@ def rule_templates(rep, idx):
                 bad = 'for condition value %d the template executes %s, expected %s' % (v, [x.name for x in ex], [x.name for x in want])
                 break
         rep.add('R12', 'if:then=%s,else=%s' % (tk_, ek_), bad is None, where + '::visitPost(IfStatement&)', bad or 'template %s' % [t for t, _ in M.instrs()])
+    # conditions with structure (a condition-specific code generator may compile ~, and, or, =, < and constants straight into branches)
+    conds = [('2', lambda X: X.num(2)), ('0', lambda X: X.num(0)), ('-1', lambda X: X.num(-1)), ('~a', lambda X: X.unop('NOT', X.var('a'))),
+             ('a and b', lambda X: X.binop('AND', X.var('a'), X.var('b'))), ('a or b', lambda X: X.binop('OR', X.var('a'), X.var('b'))),
+             ('2 or a', lambda X: X.binop('OR', X.num(2), X.var('a'))), ('~(2 and a)', lambda X: X.unop('NOT', X.binop('AND', X.num(2), X.var('a')))),
+             ('a = b', lambda X: X.binop('EQ', X.var('a'), X.var('b'))), ('a < b', lambda X: X.binop('LS', X.var('a'), X.var('b'))),
+             ('~(a = 2)', lambda X: X.unop('NOT', X.binop('EQ', X.var('a'), X.num(2))))]
+    for cname, cmk in conds:
+        for shape in (('stmt', 'stmt'), ('skip', 'stmt')):
+            M = CodeGenModel(idx, 'A')
+            for n_ in ('a', 'b'):
+                M.symbol(n_, 'VAR', 'f')
+            mk = lambda k, nm: M.I.construct('xcmp::SkipStatement', [None]) if k == 'skip' else M.I.construct('xcmp::StopStatement', [None], name=nm)
+            th, el = mk(shape[0], 'THEN'), mk(shape[1], 'ELSE')
+            cond = run_pipeline(M, cmk(M.X))
+            ref = clone_for_meaning(M.X, cmk)
+            key = 'if %s then %s else %s' % (cname, shape[0], shape[1])
+            try:
+                st = M.I.construct('xcmp::IfStatement', [None, cond, th, el])
+                M.X.visit_post(M.stmt_visitor(), st)
+            except (NeedSplit, Thrown, AnalysisBroken) as e:
+                rep.undecided('R12', key, 'cannot generate: %s' % e, where)
+                continue
+            bad = None
+            for va, vb in it.product(D, repeat=2):
+                env = {'a': va, 'b': vb}
+                want_true = M.X.meaning(ref, env) != 0
+                try:
+                    _, ex = exec_template(M, env)
+                except TemplateFault as e:
+                    bad = 'for %s: %s' % (env, e)
+                    break
+                want = ([th] if shape[0] == 'stmt' else []) if want_true else ([el] if shape[1] == 'stmt' else [])
+                if [id(x) for x in ex] != [id(x) for x in want]:
+                    bad = 'for %s the condition (%s) is %s, but the template executes %s' % (
+                        env, cname, 'true' if want_true else 'false', [x.name for x in ex] or 'nothing')
+                    break
+            rep.add('R12', key, bad is None, where + '::visitPost(IfStatement&)', bad or 'template %s' % [t for t, _ in M.instrs()][:16])
     for script in ([0], [1, 0], [2, -1, 0], [-2, 1, 2, 0]):
         M = CodeGenModel(idx, 'A')
         M.symbol('c', 'VAR', 'f')
